@@ -123,7 +123,13 @@ fn representative(kind: u8) -> F {
 pub enum Case {
     /// insertion sequence: (group 0 plain / 1 nand / 2 nor, filter); region index
     Filters { ops: Vec<(u8, F)>, region: u8, seed_ip: [u8; 4], seed_port: u16 },
-    Paging { pages: Pages, region: u8 },
+    Paging {
+        pages: Pages,
+        region: u8,
+        /// the filters of the complete query: every page request has to carry them
+        #[serde(default)]
+        ops: Vec<(u8, F)>,
+    },
 }
 
 const REGIONS: [(Region, u8); 9] = [
@@ -151,7 +157,7 @@ impl Prop for C16 {
          the request sent by query_specific is parsed by a reference grammar of the Master Server Query Protocol (31 region 'ip:port' 00 filter 00; \\\\key\\\\value \
          conditions; \\\\nor\\\\N and \\\\nand\\\\N groups of N conditions) and must denote exactly the model's three groups (last insertion of a kind wins, compared as \
          sets). Paging: 1-6 pages of 0-230 distinct entries (unrelated addresses; one host with many neighbouring ports; one port on neighbouring hosts; three hosts taking turns; 0.0.0.0 with real ports; real addresses with port 0) with the 0.0.0.0:0 terminator at the end of the last page (also a terminator-only page): query() must return \
-         the concatenation in order without the terminator, send exactly one request per page, seed request k+1 with the last address of page k and send nothing after \
+         the concatenation in order without the terminator, send exactly one request per page, seed request k+1 with the last address of page k, carry the region byte and the model's three filter groups (0-5 generated insertions, three pagings in four) in EVERY page request, and send nothing after \
          the terminator. non-trivial = a nand/nor insertion or at least two pages; distinct = digest of the case"
             .into()
     }
@@ -176,10 +182,11 @@ impl Prop for C16 {
                 v
             }),
         ];
+        let page_ops = prop_oneof![1 => Just(Vec::new()), 3 => prop::collection::vec((0u8 .. 3, filter()), 1 .. 6)];
         let filters = (ops, 0u8 .. 9, any::<[u8; 4]>(), any::<u16>())
             .prop_map(|(ops, region, seed_ip, seed_port)| Case::Filters { ops, region, seed_ip, seed_port });
-        let paging = (prop::collection::vec(prop_oneof![3 => 1usize..6, 2 => 6usize..60, 1 => 200usize..231, 1 => Just(230usize)], 1 .. 7), any::<u32>(), 0u8 .. 9, any::<bool>())
-            .prop_map(|(sizes, salt, region, empty_last)| {
+        let paging = (prop::collection::vec(prop_oneof![3 => 1usize..6, 2 => 6usize..60, 1 => 200usize..231, 1 => Just(230usize)], 1 .. 7), any::<u32>(), 0u8 .. 9, any::<bool>(), page_ops)
+            .prop_map(|(sizes, salt, region, empty_last, ops)| {
                 let mut n: u32 = salt | 1;
                 let mut sizes = sizes;
                 if empty_last {
@@ -230,7 +237,7 @@ impl Prop for C16 {
                         }
                     }
                 }
-                Case::Paging { pages: Pages { pages }, region }
+                Case::Paging { pages: Pages { pages }, region, ops }
             });
         prop_oneof![3 => filters, 1 => paging].boxed()
     }
@@ -335,17 +342,29 @@ impl Prop for C16 {
                     }
                 }
             }
-            Case::Paging { pages, region } => {
+            Case::Paging { pages, region, ops } => {
+                o.label(if ops.is_empty() { "paging-without-filters" } else { "paging-with-filters" });
                 o.label(format!("pages={}", pages.pages.len()));
                 if pages.pages.last().map(|p| p.is_empty()).unwrap_or(false) { o.label("terminator-only-last-page"); }
                 if pages.pages.iter().any(|p| p.len() == 230) { o.label("page-of-230"); }
                 o.nontrivial = pages.pages.len() >= 2;
-                let (reg, _) = REGIONS[*region as usize % 9];
+                let (reg, reg_byte) = REGIONS[*region as usize % 9];
+                let mut groups: [BTreeMap<u8, F>; 3] = [BTreeMap::new(), BTreeMap::new(), BTreeMap::new()];
+                let mut sf = SearchFilters::new();
+                for (g, f) in ops {
+                    groups[*g as usize].insert(f.kind, f.clone());
+                    sf = match g {
+                        0 => sf.insert(f.to_filter()),
+                        1 => sf.insert_nand(f.to_filter()),
+                        _ => sf.insert_nor(f.to_filter()),
+                    };
+                }
+                let filters = if ops.is_empty() { None } else { Some(sf) };
                 let requests = Rc::new(RefCell::new(Vec::new()));
                 let server = MasterServer { datagrams: pages.datagrams(), next: 0, requests: requests.clone() };
                 let run = run_scripted(Box::new(server), || {
                     let mut m = ValveMasterServer::new(&addr)?;
-                    m.query(reg, None)
+                    m.query(reg, filters)
                 });
                 let reqs = requests.borrow().clone();
                 let detail = |extra: serde_json::Value| json!({"page_sizes": pages.pages.iter().map(|p| p.len()).collect::<Vec<_>>(), "requests": reqs.iter().map(|r| String::from_utf8_lossy(r).to_string()).collect::<Vec<_>>(), "info": extra, "result": run.ended.kind_str(), "wire": render_log(&run.log[.. run.log.len().min(16)])});
@@ -374,6 +393,21 @@ impl Prop for C16 {
                             if p.seed != seed {
                                 o.fail("C16|query|paging|follow-up not seeded with the last address of the previous page", detail(json!({"request": k, "got": p.seed, "want": seed})));
                                 return o;
+                            }
+                            if p.region != reg_byte {
+                                o.fail("C16|query|paging|region byte of a page request", detail(json!({"request": k, "got": p.region, "want": reg_byte})));
+                                return o;
+                            }
+                            let names = ["plain", "nand", "nor"];
+                            for (gi, got) in [&p.plain, &p.nand, &p.nor].into_iter().enumerate() {
+                                let mut want: Vec<(String, String)> = groups[gi].values().filter_map(|f| f.condition()).collect();
+                                let mut got = got.clone();
+                                want.sort();
+                                got.sort();
+                                if got != want {
+                                    o.fail(format!("C16|query|paging|{} group of {} differs", names[gi], if k == 0 { "the first request" } else { "a follow-up request" }), detail(json!({"request": k, "got": got, "want": want})));
+                                    return o;
+                                }
                             }
                         }
                         Err(e) => {
